@@ -15,7 +15,7 @@
    * section 3.3: union.
 
    What is outside the modelled subset evaluates to None (never to a guess): the function text() (it is not an
-   XPath 1.0 function), string functions applied to numbers or booleans (number formatting is not modelled).
+   XPath 1.0 function).
    Numbers are exact decimals (Num.v).
 
    Besides the thirteen-minus-two standard axes and the standard tests, the reference language has the three
@@ -89,11 +89,12 @@ Inductive rval := RBool (b : bool) | RNum (n : N) | RStr (s : str) | RAttrs (l :
 
 Definition to_bool (v : rval) : bool :=
   match v with RBool b => b | RNum n => negb (N.eqb n 0) | RStr s => negb (null s) | RAttrs l => negb (null l) end.
-Definition to_str (v : rval) : option str :=       (* string(): only where no number formatting is needed *)
+Definition to_str (v : rval) : option str :=       (* string(); every number of the subset is a natural *)
   match v with
   | RStr s => Some s
   | RAttrs l => Some (match l with s :: _ => s | [] => [] end)
-  | _ => None
+  | RBool b => Some (if b then STR_true else STR_false)
+  | RNum n => Some (N_to_dec n)
   end.
 
 Definition r_attr (m : nsmap) (c : nd) (p : option str) (l : str) : option (list str) :=
@@ -175,7 +176,7 @@ Definition r_call (name : str) (args : list rval) (pos size : N) : option rval :
                   | _ => None end
   else if str_is name FN_concat then
     match args with
-    | _ :: _ :: _ => option_map (fun ss => RStr (concat ss)) (all_some (map (fun v => match v with RStr s => Some s | _ => None end) args))
+    | _ :: _ :: _ => option_map (fun ss => RStr (concat ss)) (all_some (map to_str args))
     | _ => None
     end
   else None.
